@@ -45,11 +45,18 @@ theorem C17_ignore_adds_nothing_new (rules : List IRule) (t m : Cfg) (h : comple
     (hall : ∀ r ∈ rules, r.ignore = true) (k : String) : hasKey m k = hasKey t k :=
   Lemmas.ignore_adds_nothing_new rules t m h hall k
 
-/-- Completion is idempotent for rule sets whose sibling rules have disjoint languages (all shipped ones). -/
+/-- Completion is idempotent for rule sets whose sibling rules have disjoint languages (all shipped ones).
+STATEMENT CHANGED w.r.t. the first draft: two extra, decidable hypotheses (defined in `Lemmas/Implicit.lean`):
+`DeepDistinct rules` — sibling rows distinct at every level (`RowsDistinct` is only the top level; without it the
+statement is false: `[t {a {x}, !a {y}}]` on the empty tree, counterexample checked in `Lemmas/Implicit.lean`);
+`SelfMatch rules` — every rule row is a line of its own language (fails only for `(?i)` rows), so that the
+default line added by a rule is recognised by that rule, and by `Disjoint` by no other, on the second run.
+Not covered: rule sets with `(?i)` rows. -/
 theorem C17_idempotent (rules : List IRule) (t m : Cfg) (h : complete rules t = some m)
-    (hnd : NoDupKeys t) (hd : RowsDistinct rules) (hdis : Disjoint rules) :
+    (hnd : NoDupKeys t) (hd : RowsDistinct rules) (hdis : Disjoint rules)
+    (hdd : Lemmas.DeepDistinct rules) (hsm : Lemmas.SelfMatch rules) :
     complete rules m = some m :=
-  Lemmas.complete_idempotent rules t m h hnd hd hdis
+  Lemmas.complete_idempotent rules t m h hnd hd hdis hdd hsm
 
 /-- Old and new are completed the same way: a default that is explicit in neither, where neither has a
 line of its kind at that place, is present in both completions — hence (C03_ops_exact) it is never
@@ -71,6 +78,13 @@ example :
     let t : Cfg := .mk [("user-interface con 0", .mk [("user privilege level 3 idle", .mk [])]), ("netconf", .mk [])]
     (complete rules t).map Cfg.paths = some [["user-interface con 0"], ["user-interface con 0", "user privilege level 3 idle"],
       ["netconf"], ["aaa"], ["aaa", "undo user-password complexity-check"]] := by
+  decide
+
+/-- The two extra hypotheses of `C17_idempotent` are checked by evaluation on a concrete rule set. -/
+example :
+    let rules : List IRule := [.mk "user-interface con *" true [.mk "user privilege level 3" false []],
+                               .mk "aaa" false [.mk "undo user-password complexity-check" false []], .mk "netconf" false []]
+    Lemmas.DeepDistinct rules ∧ Lemmas.SelfMatch rules := by
   decide
 
 end Annet.Implicit
